@@ -122,7 +122,12 @@ func (p *Program) Implementors(iface types.Type) []types.Type {
 	var out []types.Type
 	for _, t := range p.named {
 		if types.Implements(t, it) {
-			// if T implements, *T does as well, but a *T value is a different dynamic type. Keep both.
+			// if T implements, *T does as well; the repository never boxes a pointer to a value type that
+			// already implements the interface (values like Int8Value are stored by value), so *T is left
+			// out of the universe of dynamic types in that case
+			if pt, isPtr := t.(*types.Pointer); isPtr && types.Implements(pt.Elem(), it) {
+				continue
+			}
 			out = append(out, t)
 		}
 	}
